@@ -152,6 +152,32 @@ Example C08_unresolved_nonvacuous :
   has (ex_proc true) k_rwo = Ok false /\ has (ex_proc true) k_enabld = Ok false.
 Proof. repeat split; vm_compute; reflexivity. Qed.
 
+(* ===================================================================================== setter guards *)
+
+(* The range guards of the property setters of Geometry / Characteristics / Environment / APDCharacteristics are
+   regenerated from the source on every run (src_setter_guards); the settings trees of the correspondence take their
+   guards from this table.  Every guarded setting still accepts some value (a guard that refuses everything would make
+   the key unassignable), and an assignment that a guarded setter accepts passed its guard. *)
+Theorem C08_setter_guards_satisfiable :
+  forall c f g, In (c, f, g) src_setter_guards -> exists v, guard_check g v = None.
+Proof. apply guards_inhabited_all. vm_compute. reflexivity. Qed.
+Print Assumptions C08_setter_guards_satisfiable.
+
+Theorem C08_guard_respected :
+  forall k ms att g c v t',
+    (k = NObj true \/ k = NObj false \/ k = NGroup) ->
+    find is_prop att ms = Some (KProp true g, c) -> set (Node k ms) [att] v = Ok t' -> guard_check g v = None.
+Proof. intros k ms att g c v t' Hk Hf Hs. eapply assign_respects_guard; eauto. Qed.
+Print Assumptions C08_guard_respected.
+
+Example C08_guards_nonvacuous :
+  guard_of src_setter_guards "Environment" "temperature" = GRange 0 1000 true false /\
+  guard_check (guard_of src_setter_guards "Environment" "temperature") (VInt 0) = Some ValueError /\
+  guard_check (guard_of src_setter_guards "Environment" "temperature") (VDec 5 (-1)) = None /\
+  guard_check (guard_of src_setter_guards "Geometry" "row") (VStr "x") = Some TypeError /\
+  guard_of src_setter_guards "Geometry" "nope" = GAny /\ List.length src_setter_guards = 21%nat.
+Proof. repeat split; vm_compute; reflexivity. Qed.
+
 (* ===================================================================================== validate_steps *)
 
 (* wherever the offending key stands in the list of steps, validation fails (before any pipeline runs) *)
